@@ -1,2 +1,194 @@
+(* C29/Properties.v — property C29: hashing and signature primitives agree with reference
+   implementations.  The property is differential: the references are written in Gallina from the
+   specifications (Common/Blake2b, Hash/XXHash, Hash/Keccak, Hash/Sha2, C29/ModelEd25519,
+   C29/ModelSecp256k1, validated by the published test vectors in those files and in
+   C29/Vectors.v) and compared with the Go code on every run.  What is proved here, for all
+   inputs, are the structural facts the comparison relies on.  Only statements, each closed by
+   `exact <lemma>`, with Print Assumptions beneath. *)
 From Common Require Import Bytes.
-From C29 Require Import Model.
+From Common Require Blake2b.
+From Hash Require XXHash Keccak Sha2 ProofsHash.
+From C29 Require Import Model ModelField ModelEd25519 ModelSecp256k1 ModelHost Proofs ProofsSig Vectors ProofsProps.
+Local Open Scope Z_scope.
+
+(* every helper returns a digest of its advertised size, for every input *)
+Theorem C29_digest_lengths : forall m : list byte,
+  length (blake2b128 m) = 16%nat /\ length (blake2b_hash m) = 32%nat /\ length (blake2b8 m) = 8%nat
+  /\ length (twox64 m) = 8%nat /\ length (twox128 m) = 16%nat /\ length (twox256 m) = 32%nat
+  /\ length (keccak_256 m) = 32%nat /\ length (sha2_256 m) = 32%nat.
+Proof. exact digest_lengths. Qed.
+Print Assumptions C29_digest_lengths.
+
+(* twox128 m = le64 (xxh64 0 m) ++ le64 (xxh64 1 m), twox256 likewise with seeds 0..3; the shorter
+   digests are prefixes of the longer ones and decode back to the 64-bit hash values *)
+Theorem C29_twox_composition : forall m : list byte,
+  twox64 m = le_bytes 8 (XXHash.xxh64 0 m)
+  /\ twox128 m = le_bytes 8 (XXHash.xxh64 0 m) ++ le_bytes 8 (XXHash.xxh64 1 m)
+  /\ twox256 m = le_bytes 8 (XXHash.xxh64 0 m) ++ le_bytes 8 (XXHash.xxh64 1 m)
+                 ++ le_bytes 8 (XXHash.xxh64 2 m) ++ le_bytes 8 (XXHash.xxh64 3 m)
+  /\ firstn 8 (twox128 m) = twox64 m
+  /\ firstn 16 (twox256 m) = twox128 m
+  /\ le_val (twox64 m) = XXHash.xxh64 0 m
+  /\ le_val (firstn 8 (skipn 8 (twox128 m))) = XXHash.xxh64 1 m.
+Proof. exact twox_composition. Qed.
+Print Assumptions C29_twox_composition.
+
+(* BLAKE2b-128 is BLAKE2b with nn = 16, and that is not a truncation of BLAKE2b-256 *)
+Theorem C29_blake2b128_not_truncation :
+  (forall m, blake2b128 m = Blake2b.blake2b 16 m)
+  /\ exists m, blake2b128 m <> firstn 16 (blake2b_hash m).
+Proof. exact blake2b128_all. Qed.
+Print Assumptions C29_blake2b128_not_truncation.
+
+(* padding: Keccak pad10*1 (1..136 bytes appended, whole blocks, the message is a prefix) and the
+   SHA-2 padding (whole blocks, the message is a prefix, less than one extra block) *)
+Theorem C29_padding : forall (ds : N) (m : list byte),
+  (length (Keccak.pad ds m) = 136 * (length m / 136 + 1))%nat
+  /\ (length m < length (Keccak.pad ds m) <= length m + 136)%nat
+  /\ firstn (length m) (Keccak.pad ds m) = m
+  /\ (length (Sha2.pad Sha2.sha256_params m) mod 64 = 0)%nat
+  /\ (length (Sha2.pad Sha2.sha256_params m) < length m + 9 + 64)%nat
+  /\ firstn (length m) (Sha2.pad Sha2.sha256_params m) = m
+  /\ (length (Sha2.pad Sha2.sha512_params m) mod 128 = 0)%nat.
+Proof. exact padding_all. Qed.
+Print Assumptions C29_padding.
+
+(* the arithmetic of the signature references is the arithmetic of GF(2^255-19), GF(p_secp) and
+   Z/n: the folding reductions equal Z.modulo for every integer argument (and the moduli are the
+   standard ones) *)
+Theorem C29_field_arithmetic : forall a b : Z,
+  fe_mul a b = (a * b) mod p25519 /\ fe_add a b = (a + b) mod p25519
+  /\ fe_sub a b = (a - b) mod p25519 /\ fe_inv a = (a ^ (p25519 - 2)) mod p25519
+  /\ fp_mul a b = (a * b) mod secp_p /\ fp_add a b = (a + b) mod secp_p
+  /\ fp_sub a b = (a - b) mod secp_p /\ fp_inv a = (a ^ (secp_p - 2)) mod secp_p
+  /\ sc_mul a b = (a * b) mod secp_n /\ sc_inv a = (a ^ (secp_n - 2)) mod secp_n.
+Proof. exact field_arithmetic_all. Qed.
+Print Assumptions C29_field_arithmetic.
+Theorem C29_moduli :
+  p25519 = 2 ^ 255 - 19 /\ secp_p = 2 ^ 256 - 2 ^ 32 - 977
+  /\ secp_n = 0xFFFFFFFFFFFFFFFFFFFFFFFFFFFFFFFEBAAEDCE6AF48A03BBFD25E8CD0364141
+  /\ ed_L = 2 ^ 252 + 27742317777372353535851937790883648493 /\ secp_half_n = secp_n / 2.
+Proof. exact moduli_all. Qed.
+Print Assumptions C29_moduli.
+
+(* Ed25519 rejection rules, for all inputs: under the ZIP-215 reference and under Go's rules alike
+   an accepted signature has a 32-byte key, 64 bytes, a canonical scalar S < L and decodable
+   points; gossamer's VerifySignature reports an error exactly for wrong lengths and accepts
+   exactly when Go's check accepts (a total function: no panic); the per-case evaluation of the
+   driver is the pair (gossamer verdict, reference verdict) *)
+Theorem C29_ed25519_rejection_rules : forall pk msg sig : list byte,
+  (verify_zip215 pk msg sig = true ->
+     length pk = 32%nat /\ length sig = 64%nat /\ Z.of_N (le_val (skipn 32 sig)) < ed_L
+     /\ pt_decode pk <> None /\ pt_decode (firstn 32 sig) <> None)
+  /\ (verify_go pk msg sig = true ->
+     length pk = 32%nat /\ length sig = 64%nat /\ Z.of_N (le_val (skipn 32 sig)) < ed_L
+     /\ pt_decode pk <> None)
+  /\ (ed25519_verify_signature pk sig msg = VErr <-> (length pk <> 32%nat \/ length sig <> 64%nat))
+  /\ (ed25519_verify_signature pk sig msg = VOk <-> verify_go pk msg sig = true)
+  /\ ed25519_case pk sig msg = (ed25519_verify_signature pk sig msg, verify_zip215 pk msg sig).
+Proof. exact ed25519_rejection_rules_all. Qed.
+Print Assumptions C29_ed25519_rejection_rules.
+
+(* ZIP-215 point decoding accepts non-canonical field elements: the decoded point depends only on
+   the sign bit and on the low 255 bits modulo p *)
+Theorem C29_ed25519_noncanonical_y : forall b1 b2 : list byte,
+  length b1 = 32%nat -> length b2 = 32%nat ->
+  Z.shiftr (Z.of_N (le_val b1)) 255 = Z.shiftr (Z.of_N (le_val b2)) 255 ->
+  Z.land (Z.of_N (le_val b1)) mask255 mod p25519 = Z.land (Z.of_N (le_val b2)) mask255 mod p25519 ->
+  pt_decode b1 = pt_decode b2.
+Proof. exact pt_decode_congr. Qed.
+Print Assumptions C29_ed25519_noncanonical_y.
+
+(* gossamer's ed25519 verifier is not the ZIP-215 verifier: the published small-order vector
+   A = 0, R = 0, S = 0, "Zcash" is valid under ZIP-215 and rejected by the rules gossamer applies;
+   it lies inside the finding guard (known finding ed25519-not-zip215) *)
+Theorem C29_ed25519_zip215_refuted : exists pk msg sig,
+  verify_zip215 pk msg sig = true /\ ed25519_verify_signature pk sig msg = VFail
+  /\ zip215_guard pk sig = true.
+Proof. exact ed25519_zip215_refuted_all. Qed.
+Print Assumptions C29_ed25519_zip215_refuted.
+
+(* secp256k1 ECDSA verification rules, for all inputs: 32-byte message, 64-byte signature, r in
+   [1, n-1], s in [1, n/2] (high-S signatures are rejected), a well-formed public key of 33 or 65
+   bytes *)
+Theorem C29_secp256k1_verify_rules : forall pk msg sig : list byte,
+  secp256k1_verify_signature pk sig msg = true ->
+  length msg = 32%nat /\ length sig = 64%nat
+  /\ 1 <= be_z (firstn 32 sig) < secp_n
+  /\ 1 <= be_z (skipn 32 sig) <= secp_half_n
+  /\ parse_pubkey pk <> None /\ (length pk = 33%nat \/ length pk = 65%nat).
+Proof. exact secp256k1_verify_rules_all. Qed.
+Print Assumptions C29_secp256k1_verify_rules.
+
+(* secp256k1 recovery with the length check (the repaired code): never panics; returns a key
+   exactly when the reference recovers one, of 65 (33) bytes; a recovered key requires a 32-byte
+   message, a 65-byte signature, recovery id 0..3 (or 27..30), r and s in [1, n-1] *)
+Theorem C29_secp256k1_recover_total : forall msg sig : list byte,
+  match recover_public_key msg sig with
+  | RKey k => exists q, ecrecover msg sig = Some q /\ k = serialize_uncompressed q /\ length k = 65%nat
+  | RErr => ecrecover msg sig = None
+  | RPanic => False
+  end
+  /\ match recover_public_key_compressed msg sig with
+  | RKey k => exists q, ecrecover msg sig = Some q /\ k = serialize_compressed q /\ length k = 33%nat
+  | RErr => ecrecover msg sig = None
+  | RPanic => False
+  end
+  /\ (forall q, ecrecover msg sig = Some q ->
+      length msg = 32%nat /\ length sig = 65%nat
+      /\ (let v := b2n (nth 64 sig Byte.x00) in (v < 4 \/ 27 <= v < 31)%N)
+      /\ 1 <= be_z (firstn 32 sig) < secp_n
+      /\ 1 <= be_z (firstn 32 (skipn 32 sig)) < secp_n).
+Proof. exact secp256k1_recover_total_all. Qed.
+Print Assumptions C29_secp256k1_recover_total.
+
+(* RecoverPublicKey before the fix read sig[64] before checking the length: it panicked exactly on
+   signatures shorter than 65 bytes and agreed with the repaired function on all others *)
+Theorem C29_secp256k1_recover_prefix_refuted :
+  (exists msg sig, recover_public_key_prefix msg sig = RPanic)
+  /\ (forall msg sig, recover_public_key_prefix msg sig = RPanic <-> (length sig < 65)%nat)
+  /\ (forall msg sig, (65 <= length sig)%nat ->
+        recover_public_key_prefix msg sig = recover_public_key msg sig
+        /\ recover_public_key_compressed_prefix msg sig = recover_public_key_compressed msg sig).
+Proof. exact secp256k1_recover_prefix_refuted_all. Qed.
+Print Assumptions C29_secp256k1_recover_prefix_refuted.
+
+(* the crypto host functions of imports.go: the ed25519 function is the library verdict; gossamer's
+   ecdsa_verify accepts only low-S signatures over blake2_256(msg) and a decodable key; Substrate's
+   verdict needs recovery id 0..3 and r, s in [1, n-1]; every disagreement in which gossamer accepts
+   lies in the finding guard; recovered keys have 64 / 33 bytes *)
+Theorem C29_host_functions : forall pk msg sig : list byte,
+  host_ed25519_case pk msg sig = (host_ed25519_verify pk msg sig, verify_zip215 pk msg sig)
+  /\ (host_ecdsa_verify pk msg sig = true ->
+       1 <= be_z (firstn 32 (firstn 64 sig)) < secp_n
+       /\ 1 <= be_z (skipn 32 (firstn 64 sig)) <= secp_half_n /\ parse_pubkey pk <> None)
+  /\ (substrate_ecdsa_verify pk msg sig = true ->
+       length pk = 33%nat /\ length sig = 65%nat /\ (b2n (nth 64 sig Byte.x00) < 4)%N
+       /\ 1 <= be_z (firstn 32 sig) < secp_n /\ 1 <= be_z (firstn 32 (skipn 32 sig)) < secp_n)
+  /\ (host_ecdsa_verify pk msg sig = true -> substrate_ecdsa_verify pk msg sig = false ->
+       host_ecdsa_guard pk msg sig = true)
+  /\ (forall k, host_recover msg sig = Some k -> length k = 64%nat)
+  /\ (forall k, host_recover_compressed msg sig = Some k -> length k = 33%nat).
+Proof. exact host_functions_all. Qed.
+Print Assumptions C29_host_functions.
+
+(* ext_crypto_ecdsa_verify_version_2 is not Substrate's ecdsa_verify: it ignores the recovery id
+   byte altogether, and a high-S signature with its matching recovery id (valid for Substrate) is
+   rejected (known finding ecdsa-verify-drops-recovery-id) *)
+Theorem C29_host_ecdsa_refuted :
+  (exists pk msg sig65, host_ecdsa_verify pk msg sig65 <> substrate_ecdsa_verify pk msg sig65
+                        /\ host_ecdsa_guard pk msg sig65 = true)
+  /\ (forall pk msg rs v1 v2, length rs = 64%nat ->
+        host_ecdsa_verify pk msg (rs ++ [v1]) = host_ecdsa_verify pk msg (rs ++ [v2])).
+Proof. exact host_ecdsa_refuted_all. Qed.
+Print Assumptions C29_host_ecdsa_refuted.
+
+(* non-vacuity: the accepting branches are inhabited (RFC 8032 test 1; a libsecp256k1 signature,
+   its rejected high-S twin, and recovery of the signer's key from both) *)
+Example C29_nonvacuous :
+  verify_both rfc1_pk [] rfc1_sig = (true, true)
+  /\ ecdsa_verify k_pkc k_msg (k_r ++ k_s) = true
+  /\ ecdsa_verify k_pkc k_msg (k_r ++ k_high_s) = false
+  /\ recover_public_key k_msg (k_r ++ k_s ++ [n2b 0]) = RKey k_pku
+  /\ recover_public_key k_msg (k_r ++ k_high_s ++ [n2b 1]) = RKey k_pku.
+Proof. exact nonvacuous_all. Qed.
